@@ -86,6 +86,33 @@ theorem foldl_specInsert_nodup : ∀ (es m : List Elem), ((m ++ es).map (·.1)).
     rw [List.foldl_cons, hs, ih (m ++ [e]) (by simpa using hn)]
     simp
 
+theorem lookup_specInsert (m : List Elem) (e : Elem) (k : Nat) :
+    (specInsert m e).lookup k =
+      match m.lookup k with
+      | some v => some v
+      | none => if k = e.1 then some e.2 else none := by
+  obtain ⟨ek, ev⟩ := e
+  unfold specInsert
+  cases he : m.lookup ek with
+  | some w =>
+    simp only
+    cases hk : m.lookup k with
+    | some v => rfl
+    | none =>
+      have : k ≠ ek := by
+        intro heq; rw [heq, he] at hk; cases hk
+      simp [this]
+  | none =>
+    simp only
+    rw [List.lookup_append]
+    cases hk : m.lookup k with
+    | some v => rfl
+    | none =>
+      by_cases hke : k = ek
+      · simp [hke]
+      · have : (k == ek) = false := beq_false_of_ne hke
+        simp [hke, this]
+
 /-! ### refinement -/
 
 /-- the model state `s` represents the reference container `m` -/
